@@ -20,8 +20,9 @@
      Bad     there is no such Rust program: the macro panics at expansion
              (unit struct, slice/reference/pointer/fn/never field type), the
              emitted code does not type-check (a tuple or array containing a
-             non-plain type, a skipped field of a non-plain type), or the value
-             given is not a value of the shape. *)
+             non-plain type, a skipped field of a non-plain type, a definition
+             without any converted field), or the value given is not a value of
+             the shape. *)
 From SV Require Export Base.Ids.
 
 (* ------------------------------------------------------------------ *)
@@ -120,6 +121,9 @@ Definition is_skip (a : attr) : bool := match a with ASkip => true | _ => false 
 (* field_should_skip *)
 Definition fskip (f : field) : bool := existsb is_skip (fattrs f).
 
+Definition fields_list (fs : fields) : list field :=
+  match fs with FUnit => [] | FTuple l | FNamed l => l end.
+
 (* ------------------------------------------------------------------ *)
 (* plain types: those covered by the blanket impl
      impl<C: Clone + Serialize + DeserializeOwned, M> ConvertSaveload<M> for C  { type Data = Self; clone / identity }
@@ -145,6 +149,17 @@ Fixpoint has_plain (t : ty) (v : tree) {struct t} : bool :=
 (* the blanket impl: convert_into = Ok(self.clone()), convert_from = Ok(data) *)
 Definition clone_plain (t : ty) (v : tree) : res tree :=
   if plain_ty t && has_plain t v then Ok v else Bad.
+
+(* The emitted `<Name>SaveloadData<.., MA>` mentions its parameter `MA` only in
+   the types of converted fields (`<T as ConvertSaveload<MA>>::Data`); when no
+   field at all is converted (only unit variants, or every field skipped) rustc
+   rejects it: "type parameter `MA` is never used" (the macro's documentation
+   says as much: such types should derive Serialize/Deserialize instead). *)
+Definition has_converted (d : def) : bool :=
+  match d with
+  | DStruct _ fs => existsb (fun f => negb (fskip f)) (fields_list fs)
+  | DEnum _ vs => existsb (fun v => existsb (fun f => negb (fskip f)) (fields_list (vfields v))) vs
+  end.
 
 (* ------------------------------------------------------------------ *)
 (* the conversions.  `convert_into` and `convert_from` are generated by two
@@ -198,11 +213,13 @@ Section Conv.
     end.
 
   Definition conv_def (parg : tree -> res tree) (d : def) (v : tree) : res tree :=
-    match d with
-    | DStruct _ FUnit => Bad          (* saveload_struct panics on unit structs *)
-    | DStruct _ fs => conv_fields parg fs v
-    | DEnum _ vs => match v with Var vn body => conv_variants parg vs vn body | _ => Bad end
-    end.
+    if has_converted d then
+      match d with
+      | DStruct _ FUnit => Bad          (* saveload_struct panics on unit structs *)
+      | DStruct _ fs => conv_fields parg fs v
+      | DEnum _ vs => match v with Var vn body => conv_variants parg vs vn body | _ => Bad end
+      end
+    else Bad.                           (* E0392: the emitted definition does not use `MA` *)
 End Conv.
 
 (* tie the knot over the environment: structural on the list of definitions *)
@@ -395,6 +412,7 @@ Definition sup_fields (E : env) (g : bool) (fs : fields) : bool :=
   end.
 
 Definition sup_def (E : env) (d : def) : bool :=
+  has_converted d &&
   match d with
   | DStruct _ FUnit => false
   | DStruct g fs => sup_fields E g fs
